@@ -23,7 +23,7 @@ def plan(tier, seed):
     top = 3 if tier == 'quick' else 5
     specs = [{'part': 'enum', 'face': f, 'top': top} for f in range(12)]
     for i in range(4 if tier == 'quick' else 20):
-        specs.append({'part': 'located', 'n': 450 if tier == 'quick' else 6000})
+        specs.append({'part': 'located', 'n': 660 if tier == 'quick' else 6000})
     return specs
 
 
@@ -88,6 +88,10 @@ def eval_cell(a5, geo, c, r, cls, ctx, combos=None):
             if min(geo.dot(cc, v) for v in vs) <= 0.05:
                 ctx.fail('ring_not_local', case)
                 continue
+            mind = min(math.hypot(poly[i][0] - poly[(i + 1) % len(poly)][0], poly[i][1] - poly[(i + 1) % len(poly)][1]) for i in range(len(poly)))
+            if mind < 0.02 * w / s:
+                ctx.fail('repeated_or_collapsed_vertices', case, min_spacing_w=mind / w, expected_about=0.6 / s)
+                continue
             area = geo.signed_area2d(poly)
             if not area > 0:
                 ctx.fail('clockwise_or_degenerate', case, signed_area_w2=area / (w * w))
@@ -132,13 +136,17 @@ def run_shard(spec, ctx):
         ctx.sample({'cell': c, 'r': r, 'ring_segments_1': a5.cell_to_boundary(c, {'segments': 1})})
         return
     for n in range(spec['n']):
-        kind = ('antimeridian', 'polar', 'frame', 'pattern')[n % 4]
+        kind = ('antimeridian', 'polar', 'frame', 'pattern', 'edge', 'meridian87')[n % 6]
         r = rnd.randint(4, 29)
         try:
             if kind == 'antimeridian':
                 lat = math.degrees(math.asin(rnd.uniform(-1, 1)))
                 d = math.degrees(geo.width(r)) * rnd.uniform(-0.6, 0.6) / max(0.05, math.cos(math.radians(lat)))
                 c = a5.lonlat_to_cell((rnd.choice((180.0, -180.0)) + d, lat), r)
+            elif kind == 'meridian87':
+                lat = math.degrees(math.asin(rnd.uniform(-1, 1)))
+                d = math.degrees(geo.width(r)) * rnd.uniform(-0.6, 0.6) / max(0.05, math.cos(math.radians(lat)))
+                c = a5.lonlat_to_cell((rnd.choice((87.0, -93.0)) + d, lat), r)
             elif kind == 'pattern':
                 c = gen.cell_by_path(a5, rnd.randrange(12), rnd.randrange(5), gen.digits_pattern(rnd, r - 1))
             else:
